@@ -20,7 +20,7 @@ extern "C" {
 namespace {
 
 enum { OP_FILE = 1, OP_INIT, OP_INIT_COPY, OP_INIT_COPY_CURSOR, OP_APPEND_DYN, OP_APPEND_BYTE_DYN, OP_RESERVE, OP_RESERVE_REL, OP_RESERVE_SMART,
-       OP_RESERVE_SMART_REL, OP_CAT, OP_RESET, OP_SECURE_ZERO, OP_CLEAN_UP, OP_SELF_APPEND, OP_APPEND_STATIC };
+       OP_RESERVE_SMART_REL, OP_CAT, OP_RESET, OP_SECURE_ZERO, OP_CLEAN_UP, OP_SELF_APPEND, OP_APPEND_STATIC, OP_INIT_CACHE };
 
 struct Rel { size_t size; bool zero; };
 struct Ctx {
@@ -149,6 +149,54 @@ void expect_unchanged(const struct aws_byte_buf &before, Model &M, const char *w
         sim::violation("c01:failed-op-changed", "%s reported failure but changed the buffer (len %zu->%zu, capacity %zu->%zu)", what, before.len, M.buf.len, before.capacity, M.buf.capacity);
 }
 
+// aws_byte_buf_init_cache_and_update_cursors is variadic: one call site per argument count
+int call_init_cache(struct aws_byte_buf *dest, struct aws_allocator *a, struct aws_byte_cursor **cp, int n) {
+    switch (n) {
+        case 0: return aws_byte_buf_init_cache_and_update_cursors(dest, a, NULL);
+        case 1: return aws_byte_buf_init_cache_and_update_cursors(dest, a, cp[0], NULL);
+        case 2: return aws_byte_buf_init_cache_and_update_cursors(dest, a, cp[0], cp[1], NULL);
+        case 3: return aws_byte_buf_init_cache_and_update_cursors(dest, a, cp[0], cp[1], cp[2], NULL);
+        case 4: return aws_byte_buf_init_cache_and_update_cursors(dest, a, cp[0], cp[1], cp[2], cp[3], NULL);
+        case 5: return aws_byte_buf_init_cache_and_update_cursors(dest, a, cp[0], cp[1], cp[2], cp[3], cp[4], NULL);
+        case 6: return aws_byte_buf_init_cache_and_update_cursors(dest, a, cp[0], cp[1], cp[2], cp[3], cp[4], cp[5], NULL);
+        case 7: return aws_byte_buf_init_cache_and_update_cursors(dest, a, cp[0], cp[1], cp[2], cp[3], cp[4], cp[5], cp[6], NULL);
+        case 8: return aws_byte_buf_init_cache_and_update_cursors(dest, a, cp[0], cp[1], cp[2], cp[3], cp[4], cp[5], cp[6], cp[7], NULL);
+        case 9: return aws_byte_buf_init_cache_and_update_cursors(dest, a, cp[0], cp[1], cp[2], cp[3], cp[4], cp[5], cp[6], cp[7], cp[8], NULL);
+        case 10: return aws_byte_buf_init_cache_and_update_cursors(dest, a, cp[0], cp[1], cp[2], cp[3], cp[4], cp[5], cp[6], cp[7], cp[8], cp[9], NULL);
+        case 11: return aws_byte_buf_init_cache_and_update_cursors(dest, a, cp[0], cp[1], cp[2], cp[3], cp[4], cp[5], cp[6], cp[7], cp[8], cp[9], cp[10], NULL);
+        case 12: return aws_byte_buf_init_cache_and_update_cursors(dest, a, cp[0], cp[1], cp[2], cp[3], cp[4], cp[5], cp[6], cp[7], cp[8], cp[9], cp[10], cp[11], NULL);
+        case 13: return aws_byte_buf_init_cache_and_update_cursors(dest, a, cp[0], cp[1], cp[2], cp[3], cp[4], cp[5], cp[6], cp[7], cp[8], cp[9], cp[10], cp[11], cp[12], NULL);
+        case 14: return aws_byte_buf_init_cache_and_update_cursors(dest, a, cp[0], cp[1], cp[2], cp[3], cp[4], cp[5], cp[6], cp[7], cp[8], cp[9], cp[10], cp[11], cp[12], cp[13], NULL);
+        case 15: return aws_byte_buf_init_cache_and_update_cursors(dest, a, cp[0], cp[1], cp[2], cp[3], cp[4], cp[5], cp[6], cp[7], cp[8], cp[9], cp[10], cp[11], cp[12], cp[13], cp[14], NULL);
+        case 16: return aws_byte_buf_init_cache_and_update_cursors(dest, a, cp[0], cp[1], cp[2], cp[3], cp[4], cp[5], cp[6], cp[7], cp[8], cp[9], cp[10], cp[11], cp[12], cp[13], cp[14], cp[15], NULL);
+        case 17: return aws_byte_buf_init_cache_and_update_cursors(dest, a, cp[0], cp[1], cp[2], cp[3], cp[4], cp[5], cp[6], cp[7], cp[8], cp[9], cp[10], cp[11], cp[12], cp[13], cp[14], cp[15], cp[16], NULL);
+        case 18: return aws_byte_buf_init_cache_and_update_cursors(dest, a, cp[0], cp[1], cp[2], cp[3], cp[4], cp[5], cp[6], cp[7], cp[8], cp[9], cp[10], cp[11], cp[12], cp[13], cp[14], cp[15], cp[16], cp[17], NULL);
+        case 19: return aws_byte_buf_init_cache_and_update_cursors(dest, a, cp[0], cp[1], cp[2], cp[3], cp[4], cp[5], cp[6], cp[7], cp[8], cp[9], cp[10], cp[11], cp[12], cp[13], cp[14], cp[15], cp[16], cp[17], cp[18], NULL);
+        case 20: return aws_byte_buf_init_cache_and_update_cursors(dest, a, cp[0], cp[1], cp[2], cp[3], cp[4], cp[5], cp[6], cp[7], cp[8], cp[9], cp[10], cp[11], cp[12], cp[13], cp[14], cp[15], cp[16], cp[17], cp[18], cp[19], NULL);
+        case 21: return aws_byte_buf_init_cache_and_update_cursors(dest, a, cp[0], cp[1], cp[2], cp[3], cp[4], cp[5], cp[6], cp[7], cp[8], cp[9], cp[10], cp[11], cp[12], cp[13], cp[14], cp[15], cp[16], cp[17], cp[18], cp[19], cp[20], NULL);
+        case 22: return aws_byte_buf_init_cache_and_update_cursors(dest, a, cp[0], cp[1], cp[2], cp[3], cp[4], cp[5], cp[6], cp[7], cp[8], cp[9], cp[10], cp[11], cp[12], cp[13], cp[14], cp[15], cp[16], cp[17], cp[18], cp[19], cp[20], cp[21], NULL);
+        case 23: return aws_byte_buf_init_cache_and_update_cursors(dest, a, cp[0], cp[1], cp[2], cp[3], cp[4], cp[5], cp[6], cp[7], cp[8], cp[9], cp[10], cp[11], cp[12], cp[13], cp[14], cp[15], cp[16], cp[17], cp[18], cp[19], cp[20], cp[21], cp[22], NULL);
+        case 24: return aws_byte_buf_init_cache_and_update_cursors(dest, a, cp[0], cp[1], cp[2], cp[3], cp[4], cp[5], cp[6], cp[7], cp[8], cp[9], cp[10], cp[11], cp[12], cp[13], cp[14], cp[15], cp[16], cp[17], cp[18], cp[19], cp[20], cp[21], cp[22], cp[23], NULL);
+        case 25: return aws_byte_buf_init_cache_and_update_cursors(dest, a, cp[0], cp[1], cp[2], cp[3], cp[4], cp[5], cp[6], cp[7], cp[8], cp[9], cp[10], cp[11], cp[12], cp[13], cp[14], cp[15], cp[16], cp[17], cp[18], cp[19], cp[20], cp[21], cp[22], cp[23], cp[24], NULL);
+        case 26: return aws_byte_buf_init_cache_and_update_cursors(dest, a, cp[0], cp[1], cp[2], cp[3], cp[4], cp[5], cp[6], cp[7], cp[8], cp[9], cp[10], cp[11], cp[12], cp[13], cp[14], cp[15], cp[16], cp[17], cp[18], cp[19], cp[20], cp[21], cp[22], cp[23], cp[24], cp[25], NULL);
+        case 27: return aws_byte_buf_init_cache_and_update_cursors(dest, a, cp[0], cp[1], cp[2], cp[3], cp[4], cp[5], cp[6], cp[7], cp[8], cp[9], cp[10], cp[11], cp[12], cp[13], cp[14], cp[15], cp[16], cp[17], cp[18], cp[19], cp[20], cp[21], cp[22], cp[23], cp[24], cp[25], cp[26], NULL);
+        case 28: return aws_byte_buf_init_cache_and_update_cursors(dest, a, cp[0], cp[1], cp[2], cp[3], cp[4], cp[5], cp[6], cp[7], cp[8], cp[9], cp[10], cp[11], cp[12], cp[13], cp[14], cp[15], cp[16], cp[17], cp[18], cp[19], cp[20], cp[21], cp[22], cp[23], cp[24], cp[25], cp[26], cp[27], NULL);
+        case 29: return aws_byte_buf_init_cache_and_update_cursors(dest, a, cp[0], cp[1], cp[2], cp[3], cp[4], cp[5], cp[6], cp[7], cp[8], cp[9], cp[10], cp[11], cp[12], cp[13], cp[14], cp[15], cp[16], cp[17], cp[18], cp[19], cp[20], cp[21], cp[22], cp[23], cp[24], cp[25], cp[26], cp[27], cp[28], NULL);
+        case 30: return aws_byte_buf_init_cache_and_update_cursors(dest, a, cp[0], cp[1], cp[2], cp[3], cp[4], cp[5], cp[6], cp[7], cp[8], cp[9], cp[10], cp[11], cp[12], cp[13], cp[14], cp[15], cp[16], cp[17], cp[18], cp[19], cp[20], cp[21], cp[22], cp[23], cp[24], cp[25], cp[26], cp[27], cp[28], cp[29], NULL);
+        case 31: return aws_byte_buf_init_cache_and_update_cursors(dest, a, cp[0], cp[1], cp[2], cp[3], cp[4], cp[5], cp[6], cp[7], cp[8], cp[9], cp[10], cp[11], cp[12], cp[13], cp[14], cp[15], cp[16], cp[17], cp[18], cp[19], cp[20], cp[21], cp[22], cp[23], cp[24], cp[25], cp[26], cp[27], cp[28], cp[29], cp[30], NULL);
+        case 32: return aws_byte_buf_init_cache_and_update_cursors(dest, a, cp[0], cp[1], cp[2], cp[3], cp[4], cp[5], cp[6], cp[7], cp[8], cp[9], cp[10], cp[11], cp[12], cp[13], cp[14], cp[15], cp[16], cp[17], cp[18], cp[19], cp[20], cp[21], cp[22], cp[23], cp[24], cp[25], cp[26], cp[27], cp[28], cp[29], cp[30], cp[31], NULL);
+        case 33: return aws_byte_buf_init_cache_and_update_cursors(dest, a, cp[0], cp[1], cp[2], cp[3], cp[4], cp[5], cp[6], cp[7], cp[8], cp[9], cp[10], cp[11], cp[12], cp[13], cp[14], cp[15], cp[16], cp[17], cp[18], cp[19], cp[20], cp[21], cp[22], cp[23], cp[24], cp[25], cp[26], cp[27], cp[28], cp[29], cp[30], cp[31], cp[32], NULL);
+        case 34: return aws_byte_buf_init_cache_and_update_cursors(dest, a, cp[0], cp[1], cp[2], cp[3], cp[4], cp[5], cp[6], cp[7], cp[8], cp[9], cp[10], cp[11], cp[12], cp[13], cp[14], cp[15], cp[16], cp[17], cp[18], cp[19], cp[20], cp[21], cp[22], cp[23], cp[24], cp[25], cp[26], cp[27], cp[28], cp[29], cp[30], cp[31], cp[32], cp[33], NULL);
+        case 35: return aws_byte_buf_init_cache_and_update_cursors(dest, a, cp[0], cp[1], cp[2], cp[3], cp[4], cp[5], cp[6], cp[7], cp[8], cp[9], cp[10], cp[11], cp[12], cp[13], cp[14], cp[15], cp[16], cp[17], cp[18], cp[19], cp[20], cp[21], cp[22], cp[23], cp[24], cp[25], cp[26], cp[27], cp[28], cp[29], cp[30], cp[31], cp[32], cp[33], cp[34], NULL);
+        case 36: return aws_byte_buf_init_cache_and_update_cursors(dest, a, cp[0], cp[1], cp[2], cp[3], cp[4], cp[5], cp[6], cp[7], cp[8], cp[9], cp[10], cp[11], cp[12], cp[13], cp[14], cp[15], cp[16], cp[17], cp[18], cp[19], cp[20], cp[21], cp[22], cp[23], cp[24], cp[25], cp[26], cp[27], cp[28], cp[29], cp[30], cp[31], cp[32], cp[33], cp[34], cp[35], NULL);
+        case 37: return aws_byte_buf_init_cache_and_update_cursors(dest, a, cp[0], cp[1], cp[2], cp[3], cp[4], cp[5], cp[6], cp[7], cp[8], cp[9], cp[10], cp[11], cp[12], cp[13], cp[14], cp[15], cp[16], cp[17], cp[18], cp[19], cp[20], cp[21], cp[22], cp[23], cp[24], cp[25], cp[26], cp[27], cp[28], cp[29], cp[30], cp[31], cp[32], cp[33], cp[34], cp[35], cp[36], NULL);
+        case 38: return aws_byte_buf_init_cache_and_update_cursors(dest, a, cp[0], cp[1], cp[2], cp[3], cp[4], cp[5], cp[6], cp[7], cp[8], cp[9], cp[10], cp[11], cp[12], cp[13], cp[14], cp[15], cp[16], cp[17], cp[18], cp[19], cp[20], cp[21], cp[22], cp[23], cp[24], cp[25], cp[26], cp[27], cp[28], cp[29], cp[30], cp[31], cp[32], cp[33], cp[34], cp[35], cp[36], cp[37], NULL);
+        case 39: return aws_byte_buf_init_cache_and_update_cursors(dest, a, cp[0], cp[1], cp[2], cp[3], cp[4], cp[5], cp[6], cp[7], cp[8], cp[9], cp[10], cp[11], cp[12], cp[13], cp[14], cp[15], cp[16], cp[17], cp[18], cp[19], cp[20], cp[21], cp[22], cp[23], cp[24], cp[25], cp[26], cp[27], cp[28], cp[29], cp[30], cp[31], cp[32], cp[33], cp[34], cp[35], cp[36], cp[37], cp[38], NULL);
+        case 40: return aws_byte_buf_init_cache_and_update_cursors(dest, a, cp[0], cp[1], cp[2], cp[3], cp[4], cp[5], cp[6], cp[7], cp[8], cp[9], cp[10], cp[11], cp[12], cp[13], cp[14], cp[15], cp[16], cp[17], cp[18], cp[19], cp[20], cp[21], cp[22], cp[23], cp[24], cp[25], cp[26], cp[27], cp[28], cp[29], cp[30], cp[31], cp[32], cp[33], cp[34], cp[35], cp[36], cp[37], cp[38], cp[39], NULL);
+    }
+    return -2;
+}
+
 void run_growth(Ctx &c) {
     Model M;
     AWS_ZERO_STRUCT(M.buf);
@@ -156,7 +204,7 @@ void run_growth(Ctx &c) {
         if (op.kind == OP_FILE) continue;
         c.ops_done++;
         c.hist = sim::mix64(c.hist, (uint64_t)op.kind * 131 + (uint64_t)op.a);
-        if (!M.inited && op.kind != OP_INIT && op.kind != OP_INIT_COPY_CURSOR) {
+        if (!M.inited && op.kind != OP_INIT && op.kind != OP_INIT_COPY_CURSOR && op.kind != OP_INIT_CACHE) {
             if (aws_byte_buf_init(&M.buf, c.alloc, 0)) sim::violation("c01:init", "init(0) failed");
             M.inited = true; M.m.clear();
         }
@@ -177,6 +225,58 @@ void run_growth(Ctx &c) {
                 struct aws_byte_cursor cur = aws_byte_cursor_from_array(src.data(), src.size());
                 if (aws_byte_buf_init_copy_from_cursor(&M.buf, c.alloc, cur)) sim::violation("c01:init", "init_copy_from_cursor failed");
                 M.inited = true; M.m = src;
+                break;
+            }
+            case OP_INIT_CACHE: {
+                // n cursors (0..40) copied into one freshly allocated buffer and re-pointed into it; op.d: one cursor claims a length that
+                // makes the total overflow (must fail before anything is allocated or dereferenced)
+                if (M.inited) aws_byte_buf_clean_up(&M.buf);
+                M.inited = false;
+                int n = (int)(op.a % 41);
+                sim::Rng pr(sim::mix64((uint64_t)op.b, 0xCAC4E));
+                std::vector<std::vector<uint8_t>> pieces((size_t)n);
+                std::vector<struct aws_byte_cursor> cur((size_t)n);
+                struct aws_byte_cursor *cp[41];
+                std::vector<uint8_t> all;
+                for (int i = 0; i < n; i++) {
+                    size_t len = pr.chance(0.15) ? 0 : (size_t)pr.range(1, pr.chance(0.1) ? 300 : 12);
+                    pieces[(size_t)i] = gen_bytes(pr.next(), len);
+                    cur[(size_t)i] = len ? aws_byte_cursor_from_array(pieces[(size_t)i].data(), len) : aws_byte_cursor_from_array(nullptr, 0);
+                    cp[i] = &cur[(size_t)i];
+                    all.insert(all.end(), pieces[(size_t)i].begin(), pieces[(size_t)i].end());
+                }
+                int bomb = (op.d && n >= 2) ? (int)pr.range(0, n - 1) : -1;
+                if (bomb >= 0 && all.size() - pieces[(size_t)bomb].size() < 4) bomb = -1; // the total would not overflow: ordinary call
+                if (bomb >= 0) { cur[(size_t)bomb].len = SIZE_MAX - 3; if (!cur[(size_t)bomb].ptr) cur[(size_t)bomb].ptr = (uint8_t *)"x"; }
+                std::vector<struct aws_byte_cursor> before_cur = cur;
+                size_t blocks_before = simalloc::live_count();
+                struct aws_byte_buf out;
+                memset(&out, 0x5a, sizeof out);
+                int rc = call_init_cache(&out, c.alloc, cp, n);
+                sim::probe(n > 16 ? "init_cache_more_than_16_cursors" : "init_cache_up_to_16_cursors");
+                if (bomb >= 0) {
+                    if (rc == AWS_OP_SUCCESS) sim::violation("c01:overflow", "init_cache_and_update_cursors succeeded although the cursor lengths add up to more than SIZE_MAX");
+                    if (simalloc::live_count() != blocks_before) sim::violation("c01:failed-op-changed", "failed init_cache_and_update_cursors left an allocation behind");
+                    for (int i = 0; i < n; i++)
+                        if (cur[(size_t)i].ptr != before_cur[(size_t)i].ptr || cur[(size_t)i].len != before_cur[(size_t)i].len)
+                            sim::violation("c01:failed-op-changed", "failed init_cache_and_update_cursors modified cursor %d", i);
+                    sim::probe("init_cache_total_length_overflow");
+                    if (aws_byte_buf_init(&M.buf, c.alloc, 0)) sim::violation("c01:init", "init(0) failed");
+                    M.inited = true; M.m.clear();
+                    break;
+                }
+                if (rc != AWS_OP_SUCCESS) sim::violation("c01:init", "init_cache_and_update_cursors(%d cursors) failed", n);
+                M.buf = out; M.inited = true; M.m = all;
+                if (out.len != all.size() || out.capacity != all.size())
+                    sim::violation("c01:len", "init_cache_and_update_cursors(%d cursors): len %zu capacity %zu, the cursors add up to %zu", n, out.len, out.capacity, all.size());
+                size_t off = 0;
+                for (int i = 0; i < n; i++) {
+                    size_t len = pieces[(size_t)i].size();
+                    if (cur[(size_t)i].len != len) sim::violation("c01:cursor", "init_cache_and_update_cursors: cursor %d length changed (%zu -> %zu)", i, len, cur[(size_t)i].len);
+                    if (len && cur[(size_t)i].ptr != out.buffer + off)
+                        sim::violation("c01:cursor", "init_cache_and_update_cursors(%d cursors): cursor %d does not reference the buffer at offset %zu", n, i, off);
+                    off += len;
+                }
                 break;
             }
             case OP_INIT_COPY: {
@@ -376,7 +476,8 @@ void gen(uint64_t seed, int tier, sim::Plan &p) {
             uint64_t k = r.below(100);
             if (k < 6) { op.kind = OP_INIT; op.a = r.pick(sz); }
             else if (k < 10) { op.kind = OP_INIT_COPY_CURSOR; op.a = r.pick(sz); op.b = (int64_t)(r.next() >> 2); }
-            else if (k < 15) { op.kind = OP_INIT_COPY; }
+            else if (k < 13) { op.kind = OP_INIT_COPY; }
+            else if (k < 15) { op.kind = OP_INIT_CACHE; op.a = r.chance(0.5) ? r.range(0, 40) : r.pick(std::vector<int64_t>{0, 1, 2, 3, 8, 15, 16, 17, 31, 32, 33, 40}); op.b = (int64_t)(r.next() >> 2); op.d = r.chance(0.1); }
             else if (k < 40) { op.kind = OP_APPEND_DYN; op.a = r.pick(sz); op.b = (int64_t)(r.next() >> 2); op.d = r.chance(0.4); }
             else if (k < 47) { op.kind = OP_SELF_APPEND; op.a = r.range(0, 1000); op.b = r.range(0, 1000); op.d = r.chance(0.4); }
             else if (k < 55) { op.kind = OP_APPEND_BYTE_DYN; op.a = r.range(0, 255); op.d = r.chance(0.4); }
@@ -410,6 +511,7 @@ std::string op_text(const sim::Op &op) {
         case OP_INIT: snprintf(b, sizeof b, "init(capacity %lld)", (long long)op.a); break;
         case OP_INIT_COPY: snprintf(b, sizeof b, "init_copy(); clean_up(original)"); break;
         case OP_INIT_COPY_CURSOR: snprintf(b, sizeof b, "init_copy_from_cursor(%lld bytes)", (long long)op.a); break;
+        case OP_INIT_CACHE: snprintf(b, sizeof b, "init_cache_and_update_cursors(%lld cursors)%s", (long long)(op.a % 41), op.d ? " [one length makes the total overflow]" : ""); break;
         case OP_APPEND_DYN: snprintf(b, sizeof b, "append_dynamic%s(%lld bytes)", op.d ? "_secure" : "", (long long)op.a); break;
         case OP_SELF_APPEND: snprintf(b, sizeof b, "append_dynamic%s(cursor into the destination itself)", op.d ? "_secure" : ""); break;
         case OP_APPEND_BYTE_DYN: snprintf(b, sizeof b, "append_byte_dynamic%s(0x%02llx)", op.d ? "_secure" : "", (long long)op.a); break;
@@ -434,7 +536,7 @@ extern const Harness H_C01 = {
     "Two kinds of plans. (0) file -> buffer: aws_byte_buf_init_from_file[_with_size_hint] on a simulated file: content length from "
     "{0,1,31,32,33,4095,4096,4097,8192,10000,random}, size reported by fstat equal / 0 / 4096 / larger / smaller than the content, size hints "
     "around the length, read chunking and stdio buffering, at most one of fopen error, fstat error, fileno failure, read error at an offset; "
-    "simulated allocator (moves or not on realloc, with or without mem_realloc, junk fill). (1) growth: 3-40 operations of init, init_copy, "
+    "simulated allocator (moves or not on realloc, with or without mem_realloc, junk fill). (1) growth: 3-40 operations of init, init_copy, init_cache_and_update_cursors (0-40 cursors), "
     "init_copy_from_cursor, append_dynamic[_secure] incl. self-append, append_byte_dynamic[_secure], append, reserve, reserve_relative, "
     "reserve_smart[_relative] incl. len+additional overflow, cat, reset, secure_zero, clean_up[_secure], checked against a byte-vector "
     "model after every call; released blocks are inspected by the allocator (zero-filled for the secure variants, guard bands intact). "
